@@ -51,17 +51,31 @@ func (node *tagIncludeNode) Execute(ctx *ExecutionContext, writer TemplateWriter
 		set := node.origin.set
 		includedFilename := set.resolveFilename(node.origin, filename.String())
 
-		includedTpl, err2 := set.FromFile(includedFilename)
-		if err2 != nil {
-			// if this is ReadFile error, and "if_exists" flag is enabled
-			// (only if it is this file that is missing, not one that it includes in turn, and
-			// not if it is there but cannot be read)
-			if e := err2.(*Error); node.ifExists && e.Sender == "fromfile" && e.Filename == includedFilename && e.OrigError == errTemplateNotFound {
-				return nil
-			}
-			return err2.(*Error)
+		// A template loaded for this tag is kept for the rest of the rendering: what its
+		// tags remember between executions (cycle, ifchanged) is remembered per compiled
+		// node, so a loop over {% include name %} has to execute the same compiled template
+		// in every pass - like a loop over an include with a literal name does.
+		loaded, _ := ctx.getNodeState(node).(map[string]*Template)
+		if loaded == nil {
+			loaded = make(map[string]*Template)
+			ctx.setNodeState(node, loaded)
 		}
-		err2 = includedTpl.executeWriterNested(includeCtx, writer, ctx.depth+1, ctx)
+		includedTpl := loaded[includedFilename]
+		if includedTpl == nil {
+			tpl, err2 := set.FromFile(includedFilename)
+			if err2 != nil {
+				// if this is ReadFile error, and "if_exists" flag is enabled
+				// (only if it is this file that is missing, not one that it includes in turn, and
+				// not if it is there but cannot be read)
+				if e := err2.(*Error); node.ifExists && e.Sender == "fromfile" && e.Filename == includedFilename && e.OrigError == errTemplateNotFound {
+					return nil
+				}
+				return err2.(*Error)
+			}
+			loaded[includedFilename] = tpl
+			includedTpl = tpl
+		}
+		err2 := includedTpl.executeWriterNested(includeCtx, writer, ctx.depth+1, ctx)
 		if err2 != nil {
 			return node.executionError(ctx, err2)
 		}
